@@ -84,7 +84,10 @@ def check_conservation(net, ac, opts, tol_global):
             mag = np.abs(p).max(axis=1)
             if qcols:
                 mag = np.hypot(mag, np.abs(r[qcols].values.astype(float)).max(axis=1))
-            neg = ok_rows & passive_mask(net, el) & (pl < -(1e-8 + 1e-10 * mag))
+            # a trafo3w is three two-ports around an internal bus whose own balance only holds within the solver tolerance
+            # (tolerance_mva * sn_mva MVA, F34): the sum of its terminal powers contains that residual
+            tol3 = 4 * float(opts.get("tolerance_mva", 1e-8)) * float(net.sn_mva) if el == "trafo3w" else 0.
+            neg = ok_rows & passive_mask(net, el) & (pl < -(1e-8 + tol3 + 1e-10 * mag))
             if neg.any():
                 i = int(np.flatnonzero(neg)[0])
                 viols.append(common.viol("passive %s %s reports negative losses pl_mw=%.3e" % (el, t.index[i], pl[i]), options=opts))
